@@ -402,6 +402,7 @@ impl CheckCtx {
                             inflight[w].1.store(t0.elapsed().as_millis() as u64, Ordering::SeqCst);
                             inflight[w].0.store(run + 1, Ordering::SeqCst);
                             let seed = run_seed(master, prop, S::NAME, run);
+                            journal_write(w, scenario_tag(S::NAME), run, seed);
                             // a panic that escapes `execute` is a bug of the simulator: harness error, no verdict
                             let out = match catch_unwind(AssertUnwindSafe(|| {
                                 let case = S::generate(seed, run, prop, tier);
@@ -452,6 +453,7 @@ impl CheckCtx {
                         }
                     }
                     acc.merge_into(&mut total.lock().unwrap());
+                    journal_write(w, 0, 0, 0);
                     inflight[w].0.store(0, Ordering::SeqCst);
                     finished.fetch_add(1, Ordering::SeqCst);
                 });
@@ -514,6 +516,39 @@ impl CheckCtx {
     }
 }
 
+/// In-flight journal of the supervised child process: worker `w` records (scenario tag, run, seed) at
+/// byte offset 24*w before it starts a run. When the process is killed by a signal (allocation
+/// failure aborts, it does not unwind), the supervising parent reads it to find the culprit run.
+pub static JOURNAL: std::sync::OnceLock<std::fs::File> = std::sync::OnceLock::new();
+
+pub fn scenario_tag(name: &str) -> u64 {
+    run_seed(0, "", name, 0)
+}
+
+fn journal_write(worker: usize, tag: u64, run: u64, seed: u64) {
+    if let Some(f) = JOURNAL.get() {
+        use std::os::unix::fs::FileExt;
+        let mut b = [0u8; 24];
+        b[..8].copy_from_slice(&tag.to_le_bytes());
+        b[8..16].copy_from_slice(&run.to_le_bytes());
+        b[16..].copy_from_slice(&seed.to_le_bytes());
+        let _ = f.write_at(&b, 24 * worker as u64);
+    }
+}
+
+/// Executes exactly one run (used by the supervisor to find out which in-flight run kills the process).
+pub fn run_one<S: Scenario>(seed: u64, run: u64, prop: &'static str, tier: Tier) -> usize {
+    let case = S::generate(seed, run, prop, tier);
+    S::execute(&case, prop).violations.len()
+}
+
+/// Writes the replay file of a run that killed the process.
+pub fn mk_abort_replay<S: Scenario>(verif_dir: &str, prop: &'static str, master: u64, run: u64, seed: u64, tier: Tier, how: &str) -> (String, Value) {
+    let case = S::generate(seed, run, prop, tier);
+    let v = Violation { property: prop, class: format!("{}/process-abort", S::NAME), step: 0, detail: format!("the process was killed while executing this run ({}): the library aborts instead of returning", how) };
+    (write_replay::<S>(verif_dir, prop, master, run, seed, &case, &v), S::describe(&case))
+}
+
 /// per-run time limit of the watchdog (PDSIM_RUN_TIMEOUT_S, default 120 s)
 pub fn run_timeout_ms() -> u64 {
     std::env::var("PDSIM_RUN_TIMEOUT_S").ok().and_then(|s| s.parse::<u64>().ok()).unwrap_or(120) * 1000
@@ -546,6 +581,13 @@ pub fn minimise<S: Scenario>(mut case: S::Case, prop: &'static str, v: &Violatio
         }
         for cand in S::shrink(&case) {
             execs += 1;
+            // a candidate may kill the process (allocation failure aborts): leave it where the supervisor finds it
+            if let Ok(j) = std::env::var("PDSIM_JOURNAL") {
+                let doc = json!({"property": prop, "scenario": S::NAME, "violation_class": format!("{}/process-abort", S::NAME),
+                    "expect": {"step": 0, "detail": "the process was killed while executing this minimisation candidate"},
+                    "case": serde_json::to_value(&cand).unwrap()});
+                let _ = std::fs::write(format!("{}.cand", j), serde_json::to_string(&doc).unwrap());
+            }
             let out = match execute_with_timeout::<S>(&cand, prop) {
                 Some(o) => o,
                 None => break 'outer, // a candidate that hangs: stop minimising, keep what we have
@@ -560,6 +602,9 @@ pub fn minimise<S: Scenario>(mut case: S::Case, prop: &'static str, v: &Violatio
             }
         }
         break;
+    }
+    if let Ok(j) = std::env::var("PDSIM_JOURNAL") {
+        let _ = std::fs::remove_file(format!("{}.cand", j));
     }
     (case, best_v, execs)
 }
